@@ -178,3 +178,5 @@ pub proof fn lemma_adc_reencode(p: AdcV3Packet, s: Seq<u8>)
             + s.subrange(32, n - 4) + t.subrange(n - 4, n));
     }
 }
+// ... and its channel id is in range (needed by the wire map look-up of event assembly, C10)
+pub open spec fn chan_wf(c: ChannelId) -> bool { match c { ChannelId::A16(x) => x.0 <= 15, ChannelId::A32(x) => x.0 <= 31 } }
